@@ -97,7 +97,56 @@ def worker(path):
     return {"viols": viols, "checked": checked + lits, "extra": {"path_texts_checked": checked, "literals_checked": lits, **{f"literal_class_{k}": v for k, v in classes.items()}}}
 
 
+def cli_leg(ctx, res):
+    """The JSON-output path as the real CLI runs it (output validation + serialisation + printing), and JSON input -> JSON
+    output: boundary doubles and a seeded sample, as an input echoed back, as a literal, nested in a list and a record."""
+    import json
+    import random
+    import struct
+
+    import common
+    r = random.Random(ctx["seed"] * 7919 + 16)
+    xs = [0.0, -0.0, 5e-324, -5e-324, 2.225073858507201e-308, 2.2250738585072014e-308, 1.7976931348623157e308, -1.7976931348623157e308, 1.7976931348623155e308,
+          9007199254740992.0, 9007199254740993.0, 0.1, 0.30000000000000004, 1e15, 1e21, 1e22, 1e23, 123456789012345680000.0, 1e-7, 1.5e-310, 4.9e-323, 1e300, 1 / 3.0]
+    n = 60 if ctx["tier"] == "quick" else 1500
+    while len(xs) < n:
+        x = struct.unpack(">d", struct.pack(">Q", r.getrandbits(64)))[0]
+        if x == x and x not in (float("inf"), float("-inf")):
+            xs.append(x)
+
+    def one(item):
+        i, x = item
+        text = repr(x)
+        forms = [("input-echo", ["output v = inputs.x", "-i", json.dumps({"x": x})], lambda o: o.get("v")),
+                 ("nested", ["output v = [inputs.x, {k: inputs.x}]", "-i", json.dumps({"x": x})], lambda o: (o.get("v") or [None])[0]),
+                 ("literal", [f"output v = {text if x >= 0 and not text.startswith('-') else '(' + text + ')'}"], lambda o: o.get("v"))]
+        out = []
+        for name, args, pick in forms[i % 3:i % 3 + 2] if ctx["tier"] == "quick" else forms:
+            rr = common.run_cli(args, timeout=20)
+            if rr["timeout"]:
+                continue
+            desc = {"form": name, "value": text, "bits": U.float_to_bits(x), "args": args, "exit": rr["rc"], "stdout": rr["out"].decode("utf-8", "replace")[:200], "stderr": rr["err"].decode("utf-8", "replace")[-200:]}
+            if rr["rc"] != 0:
+                out.append({"sig": f"cli-json-output-refused form={name}", "what": "the CLI does not write a finite number as JSON output", "case": desc})
+                continue
+            try:
+                got = pick(json.loads(rr["out"].decode("utf-8")))
+            except Exception:
+                got = None
+            if not isinstance(got, (int, float)) or isinstance(got, bool) or U.float_to_bits(float(got)) != U.float_to_bits(x):
+                out.append({"sig": f"cli-json-output-differs form={name}", "what": "a number written by the CLI as JSON output does not read back as the identical double", "case": dict(desc, read_back=repr(got))})
+        return out
+
+    runs = 0
+    for vs in common.pmap(one, list(enumerate(xs))):
+        runs += 1
+        for v in vs:
+            res.viols.append({"t": "viol", "prop": "C16", **v})
+    return {"numbers_through_the_real_cli": runs}
+
+
 def offline(ctx, res):
     results = U.run_parallel(worker, U.shard_files(ctx["rundir"]), ctx["ncpu"])
     checked, extra = U.merge(res, results, "C16")
-    return {"coverage": {"offline_oracle": "CPython float()/int() (correctly rounded), own literal grammar", **extra}}
+    cli = cli_leg(ctx, res)
+    return {"coverage": {"offline_oracle": "CPython float()/int() (correctly rounded), own literal grammar", "cli_leg": cli, **extra}}
